@@ -6,6 +6,10 @@
 //       comment lines and untouched entries in their relative order. Reference: a plain std:: line parser + std::map.
 //  CSV: complete enumeration of small tables over a 13-cell alphabet + shape macros up to 30x8, written cell-wise
 //       and row-wise (arrays), read back by a fresh TabularDataFile and compared cell for cell.
+//  Two binaries from this file: c18_inicsv (ASan; quick + thorough) and, via c18_deep.cpp (-DC18_DEEP, flavour plain,
+//  thorough only), the largest products (5-line texts x 2 sets, 4-line texts x 3 sets, 3x2 / 2x3 tables).
+//  Case strings: ini:<L|C eol>:<final newline 0/1>:<write() after k sets, -1 = destructor only>:<line indices>:<op indices>
+//                csv:<C cell-wise | A arrays>:<rows>x<cols>:<cell letters a..m, row major>
 #include <asl/IniFile.h>
 #include <asl/TabularDataFile.h>
 #include <asl/Var.h>
